@@ -636,6 +636,9 @@ func runBurst(c BurstCase, ctx *hx.Ctx) *hx.Failure {
 				if env.DialsStarted() < 2 {
 					return hx.Failf("C09/dialing-queue-exceeded", "queue limit %d while dialing: %d queries were queued, %d cancelled, %d more issued - %d live queries wait on a single dialing connection (no further dial was started)", c.Limit, c.N, c.CancelK, c.Refill, liveNow)
 				}
+			} else if c.N <= c.Limit && env.DialsStarted() > 1 {
+				// the slots of the cancelled queries are free again: the queries issued afterwards fit on the dialing connection
+				return hx.Failf("C09/dialing-capacity-leaked", "queue limit %d while dialing: %d queries were queued, %d cancelled, %d more issued - only %d live queries, yet the transport started %d dials (the cancelled queries' slots were not released)", c.Limit, c.N, c.CancelK, c.Refill, liveNow, env.DialsStarted())
 			}
 		}
 		openGate()
